@@ -702,6 +702,26 @@ func emitLocks(e *emitter, p *pkg) {
 	}
 	e.boolean("activeCallCloseSetsBitOnce", closeOK)
 
+	// Close wipes c.workKey (written by the handshake under handshakeMutex) only between
+	// c.handshakeMutex.Lock() and c.handshakeMutex.Unlock() (F46)
+	cb := body(p, "Conn.Close")
+	iWipe := stmtIndex(p, cb, func(s string, _ ast.Stmt) bool { return s == "setZero(c.workKey)" })
+	iNil := stmtIndex(p, cb, func(s string, _ ast.Stmt) bool { return s == "c.workKey = nil" })
+	iL, iU := -1, -1
+	for i, st := range cb {
+		switch p.src(st) {
+		case "c.handshakeMutex.Lock()":
+			if i < iWipe || iWipe < 0 {
+				iL = i
+			}
+		case "c.handshakeMutex.Unlock()":
+			if i > iNil && iU < 0 {
+				iU = i
+			}
+		}
+	}
+	e.boolean("closeWipesKeyUnderHandshakeMutex", iWipe >= 0 && iNil > iWipe && iL >= 0 && iL < iWipe && iU > iNil)
+
 	// handshakeContext: after handshakeMutex.Lock()/defer Unlock(): `if err := c.handshakeErr; err != nil { return err }`
 	// and `if c.handshakeComplete() { return nil }` both before c.in.Lock() and the single handshakeFn call.
 	hb := body(p, "Conn.handshakeContext")
